@@ -96,7 +96,12 @@ func C16() int {
 			payload[nm] = z
 		}
 		mk := func() *atlasfake.Server {
-			srv, err := atlasfake.New(atlasfake.Config{Project: project, Cluster: cluster, ConnStr: conn, ExtraJSON: cf.extra, Payload: payload})
+			fe := map[string]bool{}
+			if ci%3 == 1 {
+				// some hosts are reached through a front end that compresses responses for transport
+				fe[names[0]], fe[names[len(names)-1]] = true, true
+			}
+			srv, err := atlasfake.New(atlasfake.Config{Project: project, Cluster: cluster, ConnStr: conn, ExtraJSON: cf.extra, Payload: payload, FrontEndGzip: fe})
 			if err != nil {
 				c.Inconclusive("fake endpoint: " + err.Error())
 				return nil
